@@ -56,6 +56,9 @@ pub struct S {
     winner: std::collections::BTreeMap<u64, usize>,
     /// reference machine: per party, index of the candidate that is its pending commit
     pending: Vec<Option<usize>>,
+    /// (member, epoch) pairs where the member missed a proposal sent in that epoch because it
+    /// had not reached the epoch yet
+    missed: std::collections::BTreeSet<(usize, u64)>,
 }
 
 pub struct M {
@@ -260,6 +263,11 @@ impl M {
                         } else if c.by == m {
                             ctx.outcome(format!("deliver:own-without-pending-refused:{n}"));
                             self.unchanged(&s.w, m, &pre, "refused-own-commit", &[], ctx);
+                        } else if n == "ProposalNotFound" && s.missed.contains(&(m, c.epoch)) {
+                            // the proposal was sent while this member was still in the previous epoch
+                            ctx.outcome("deliver:commit-references-proposal-the-member-missed");
+                            // (the consumed handshake ratchet key of an encrypted commit is C04's finding F-C04-2, not C11's subject)
+                            self.unchanged(&s.w, m, &pre, "refused-commit-with-missed-proposal", &["epoch_secrets"], ctx);
                         } else {
                             ctx.violation(format!("foreign-commit-refused|{n}"), format!("{} refuses the winning commit of {}: {e:?}", s.w.parties[m].name, s.w.parties[c.by].name));
                         }
@@ -271,9 +279,12 @@ impl M {
                 let r = s.w.gm(m).propose_group_context_extensions(custom_ext(m as u8 + 1), vec![]);
                 match r {
                     Ok(msg) => {
+                        let e = s.w.g(m).current_epoch();
                         for p in s.w.members() {
-                            if p != m && s.w.g(p).current_epoch() == s.w.g(m).current_epoch() {
+                            if p != m && s.w.g(p).current_epoch() == e {
                                 let _ = s.w.process(p, &msg);
+                            } else if p != m {
+                                s.missed.insert((p, e));
                             }
                         }
                         Step::Continue
@@ -342,7 +353,7 @@ impl Model for M {
         if !matches!(r, Ok(Ok(()))) {
             crate::engine::machinery("C11 seed could not be built");
         }
-        vec![(format!("three-members/{}", self.cfg.label()), S { w, cands: vec![], kept: vec![], winner: Default::default(), pending: vec![None; 4] })]
+        vec![(format!("three-members/{}", self.cfg.label()), S { w, cands: vec![], kept: vec![], winner: Default::default(), pending: vec![None; 4], missed: Default::default() })]
     }
 
     fn depth(&self, _seed: usize) -> usize {
